@@ -64,7 +64,7 @@ def body(shape, i, name, defined):
     raise ValueError(shape)
 
 
-def chain_case(atoms, else_shape, shape):
+def chain_case(atoms, else_shape, shape, computed=False):
     ns = {'zz': plain('ZZ'), 'oo': obj('oo', w=plain('W')), 'ss': lst('ss', [plain('s1'), plain('s2')]),
           'c1': fn('F1', plain('R1', atoms[0][1] if atoms[0][0] in ('nf', 'xc') else True))}
     cs = []
@@ -84,6 +84,9 @@ def chain_case(atoms, else_shape, shape):
         # the else body may re-reference every chain name (all of them were evaluated and were false)
         e = [T('E')] + [V(n) for n, d in names if d]
     prog = [T('<'), If(cs, e), T('>')] + [V(n) for n, d in names[:1] if d]
+    if computed:
+        # the same chain with every name served by a mapping that computes its values on access: each condition reads it once
+        return dict(prog=[With(X('cm'), prog, mapping=True)], src=sources(kw={'cm': cmap('CM', **ns)}), K=0, fk=[])
     return dict(prog=prog, src=sources(kw=ns), K=0, fk=[])
 
 
@@ -104,6 +107,8 @@ def cases_for(tier, rng):
                     if n == 3 and tier == 'quick' and (es + shape + len(str(atoms))) % 3:
                         continue
                     out.append(chain_case(list(atoms), es, shape))
+                    if n <= 2 and shape in (0, 1):
+                        out.append(chain_case(list(atoms), es, shape, computed=True))
     if tier == 'thorough':
         for _ in range(4000):
             atoms = [rng.choice(pool) for _ in range(5)]
@@ -118,6 +123,8 @@ def cases_for(tier, rng):
             out.append(dict(prog=[T('<'), Unless(c, body(shape, 1, name, defined)), T('>')],
                             src=sources(kw=ns), K=0, fk=[]))
         out.append(dict(prog=[T('<'), Call(c), T('|'), Call(c), T('>')], src=sources(kw=ns), K=0, fk=[]))
+        out.append(dict(prog=[With(X('cm'), [T('<'), Call(c), T('|'), Unless(c, body(1, 1, name, defined)), T('>')], mapping=True)],
+                        src=sources(kw={'cm': cmap('CM', **ns)}), K=0, fk=[]))
         # if and unless over the same condition are complementary
         out.append(dict(prog=[If([(c, [T('I')])]), Unless(c, [T('U')])], src=sources(kw=ns), K=0, fk=[]))
     return out
